@@ -187,19 +187,19 @@ func c17(c *ctx) {
 			switch {
 			case callIs(cc, hkdf):
 				sec, a, b := c.p.path(cc.Args[0]), c.p.path(cc.Args[1]), c.p.path(cc.Args[2])
-				ok := strings.Contains(sec, "SharedSecret(") && strings.Contains(a, "NewEd25519PrivateKey()") && strings.Contains(b, "keySwap(")
+				ok := has(sec, "SharedSecret(") && freshKey(a) && has(b, "keySwap(")
 				r.Check(ok, "R3/hkdf-inputs", c.p.Pos(in.Pos()), "HKDF(shared secret, own ephemeral key, peer ephemeral key)", "HKDFSecretsAndChallenge is fed ("+sec+", "+a+", "+b+"): the challenge would not be bound to this session's ephemeral keys")
 			case callIs(cc, sharedSecret):
 				a, b := c.p.path(cc.Args[0]), c.p.path(cc.Args[1])
-				ok := strings.Contains(a, "keySwap(") && strings.Contains(b, "NewEd25519PrivateKey()")
+				ok := has(a, "keySwap(") && freshKey(b)
 				r.Check(ok, "R3/shared-secret-inputs", c.p.Pos(in.Pos()), "SharedSecret(peer ephemeral public, own ephemeral private)", "SharedSecret is computed from ("+a+", "+b+")")
 			case cc.IsInvoke() && cc.Method == verifyM:
 				key, msg, sig := c.p.path(cc.Value), c.p.path(cc.Args[0]), c.p.path(cc.Args[1])
 				if strings.Contains(msg, "HKDFSecretsAndChallenge(") {
-					ok := strings.Contains(key, "NewPublicKeyFromBytes(") && strings.Contains(key, "signatureSwap(") && strings.HasSuffix(key, ".PublicKey)#0") && strings.Contains(sig, "signatureSwap(") && strings.HasSuffix(sig, ".Signature")
+					ok := has(key, "NewPublicKeyFromBytes(") && has(key, "signatureSwap(") && hasSuffix(key, ".PublicKey)#0") && has(sig, "signatureSwap(") && hasSuffix(sig, ".Signature")
 					r.Check(ok, "R3/challenge-verification", c.p.Pos(in.Pos()), "peer's presented key verifies the peer's signature over this session's challenge", "the challenge verification is "+key+".VerifyBytes("+msg+", "+sig+"): not the presented key over this session's challenge")
 				} else {
-					ok := strings.Contains(key, "signatureSwap(") && strings.Contains(msg, "peerMetaSwap(") && strings.Contains(sig, "peerMetaSwap(")
+					ok := has(key, "signatureSwap(") && has(msg, "peerMetaSwap(") && has(sig, "peerMetaSwap(")
 					r.Check(ok, "R3/meta-verification", c.p.Pos(in.Pos()), "peer metadata verified with the authenticated key", "the metadata verification is "+key+".VerifyBytes("+msg+", "+sig+")")
 				}
 			}
@@ -220,7 +220,7 @@ func c17(c *ctx) {
 			if v != nil {
 				p = c.p.path(v)
 			}
-			r.Check(strings.Contains(p, "signatureSwap(") && strings.HasSuffix(p, ".PublicKey"), "R3/recorded-identity", c.p.Pos(st.Pos()), "Address.PublicKey = the key that verified the challenge", "the connection's identity is set to "+p+", not the public key whose signature over the challenge was verified")
+			r.Check(has(p, "signatureSwap(") && hasSuffix(p, ".PublicKey"), "R3/recorded-identity", c.p.Pos(st.Pos()), "Address.PublicKey = the key that verified the challenge", "the connection's identity is set to "+p+", not the public key whose signature over the challenge was verified")
 		}
 		// SharedSecret rejects the all-zero output
 		zeroChecked := false
@@ -316,7 +316,7 @@ func c17(c *ctx) {
 		}
 		for _, cs := range callsIn(handshake, false, newState) {
 			p := c.p.path(argOf(cs, 0))
-			r.Check(strings.Contains(p, "HKDFSecretsAndChallenge("), "R5/aead-source", c.p.Pos(cs.Pos()), "AEAD from this session's HKDF", "an AEAD state is built from "+p+", not from this session's HKDF output")
+			r.Check(has(p, "HKDFSecretsAndChallenge("), "R5/aead-source", c.p.Pos(cs.Pos()), "AEAD from this session's HKDF", "an AEAD state is built from "+p+", not from this session's HKDF output")
 		}
 	}
 
@@ -449,4 +449,12 @@ func c17(c *ctx) {
 			r.Check(okCh, "R6/challenge-source", c.p.Pos(hk.Pos()), "challenge = buffer[TwoAEADKeySize:]", "the challenge is no longer copied from the HKDF buffer's tail (beyond the two key ranges)")
 		}
 	}
+}
+
+// freshKey: every value the path can take is (derived from) the result of a key generation made by
+// this very handshake, not a key fetched from a longer-lived place that a generation merely fed.
+func freshKey(p string) bool {
+	return allAlts(p, func(a string) bool {
+		return strings.HasPrefix(a, "lib/crypto.NewEd25519PrivateKey()#0") || strings.HasPrefix(a, "lib/crypto.NewEd25519PrivateKey().")
+	})
 }
